@@ -83,6 +83,10 @@ def run_one(c: Cond) -> dict:
 
 def run_all(conds, jobs=None, progress=True):
     jobs = jobs or NPROC
+    only = os.environ.get("VERIF_ONLY")          # development aid: run the conditions whose name matches (never set by ./check users)
+    if only:
+        import re
+        conds = [c for c in conds if re.search(only, c.name)]
     out = [None] * len(conds)
     t0 = time.time()
     with cf.ThreadPoolExecutor(max_workers=jobs) as ex:
